@@ -39,7 +39,7 @@ def sorter_for(sort,  # type: Sort
                ):  # type (...) -> Sorter
 
     path_ranking = lambda x: x.original_location + str(x.deletion_date)
-    date_rankking = lambda x: x.deletion_date
+    date_rankking = lambda x: str(x.deletion_date)
     return {
         Sort.ByPath: SortFunction(path_ranking),
         Sort.ByDate: SortFunction(date_rankking),
